@@ -80,9 +80,13 @@ pub fn minimise_with<W: World>(
     while progress && tried < budget {
         progress = false;
         for i in 0..cur.len() {
+            let cur_json = serde_json::to_string(&cur[i]).unwrap_or_default();
             for alt in W::shrink(&cur[i]) {
                 if tried >= budget {
                     break;
+                }
+                if serde_json::to_string(&alt).unwrap_or_default() == cur_json {
+                    continue;
                 }
                 let mut cand = cur.clone();
                 cand[i] = alt;
